@@ -1449,13 +1449,14 @@ class Operation(_IRNode):
         """
         if context is None:
             context = {}
+            _map_equivalent_definitions(self, other, context)
         if not isinstance(other, Operation):
             return False
         if self.name != other.name:
             return False
         if (
             len(self.operands) != len(other.operands)
-            or len(self.results) != len(other.results)
+            or self.result_types != other.result_types
             or len(self.regions) != len(other.regions)
             or len(self.successors) != len(other.successors)
             or self.attributes != other.attributes
@@ -1465,7 +1466,8 @@ class Operation(_IRNode):
         if (
             self.parent is not None
             and other.parent is not None
-            and context.get(self.parent) != other.parent
+            and self.parent in context
+            and context[self.parent] != other.parent
         ):
             return False
         if not all(
@@ -2049,6 +2051,7 @@ class Block(_IRNode, IRWithUses, IRWithName):
         """
         if context is None:
             context = {}
+            _map_equivalent_definitions(self, other, context)
         if not isinstance(other, Block):
             return False
         if len(self.args) != len(other.args) or len(self.ops) != len(other.ops):
@@ -2687,6 +2690,7 @@ class Region(_IRNode):
         """
         if context is None:
             context = {}
+            _map_equivalent_definitions(self, other, context)
         if not isinstance(other, Region):
             return False
         if len(self.blocks) != len(other.blocks):
@@ -2704,6 +2708,32 @@ class Region(_IRNode):
 
 
 IRNode: TypeAlias = Operation | Region | Block
+
+
+def _map_equivalent_definitions(
+    node: IRNode,
+    other: IRNode,
+    context: dict[IRNode | SSAValue, IRNode | SSAValue],
+) -> None:
+    """
+    Map the blocks, block arguments and results defined in `node` to the ones at the
+    same position in `other`, so that uses that precede their definition (graph
+    regions, back edges) can be checked for structural equivalence.
+    """
+    if isinstance(node, Operation) and isinstance(other, Operation):
+        for result, other_result in zip(node.results, other.results):
+            context[result] = other_result
+        for region, other_region in zip(node.regions, other.regions):
+            _map_equivalent_definitions(region, other_region, context)
+    elif isinstance(node, Region) and isinstance(other, Region):
+        for block, other_block in zip(node.blocks, other.blocks):
+            _map_equivalent_definitions(block, other_block, context)
+    elif isinstance(node, Block) and isinstance(other, Block):
+        context[node] = other
+        for arg, other_arg in zip(node.args, other.args):
+            context[arg] = other_arg
+        for op, other_op in zip(node.ops, other.ops):
+            _map_equivalent_definitions(op, other_op, context)
 
 
 def _short_repr(value: object) -> str:
